@@ -425,6 +425,11 @@ pub fn diff_text(d: &[(String, String, String)], max: usize) -> String {
 
 /// Canonical key of the *whole* model state (finer than Obs): used for explicit-state dedup.
 pub fn state_key(model: &Model) -> u128 {
+    crate::env::digest(&state_text(model))
+}
+
+/// Canonical text of the whole model state (every Workbook field, maps sorted).
+pub fn state_text(model: &Model) -> String {
     let wb = &model.workbook;
     let mut s = String::new();
     use std::fmt::Write;
@@ -472,5 +477,5 @@ pub fn state_key(model: &Model) -> u128 {
         }
     }
     let _ = write!(s, "lang={}", model.get_language());
-    crate::env::digest(&s)
+    s
 }
